@@ -1,3 +1,303 @@
+//! C08 — supports() is exactly the documented envelope; constructors agree; corners really work.
+//! Whole-domain enumeration of 0..=65537 squared for every supports() entry point.
+use crate::core::*;
+use crate::json::J;
+use crate::kv::*;
 use crate::report::*;
-pub fn run(_ctx: &Ctx, rep: &mut Report) { rep.machinery_errors.push("not implemented".into()); }
-pub fn replay(_ctx: &Ctx, _case: &str) -> Result<(), String> { Err("not implemented".into()) }
+use crate::rt::*;
+use crate::with_engine;
+use reed_solomon_simd::engine::NoSimd;
+use reed_solomon_simd::Error;
+
+const LIM: usize = 65537;
+
+/// supports() entry points: (name, fn)
+fn entry_points() -> Vec<(&'static str, Kind, fn(usize, usize) -> bool)> {
+    vec![
+        ("ReedSolomonEncoder::supports", Kind::Rs, |k, r| reed_solomon_simd::ReedSolomonEncoder::supports(k, r)),
+        ("ReedSolomonDecoder::supports", Kind::Rs, |k, r| reed_solomon_simd::ReedSolomonDecoder::supports(k, r)),
+        ("DefaultRateEncoder::supports", Kind::Def, |k, r| AnyEnc::<NoSimd>::supports(Kind::Def, k, r)),
+        ("DefaultRateDecoder::supports", Kind::Def, |k, r| AnyDec::<NoSimd>::supports(Kind::Def, k, r)),
+        ("HighRateEncoder::supports", Kind::High, |k, r| AnyEnc::<NoSimd>::supports(Kind::High, k, r)),
+        ("HighRateDecoder::supports", Kind::High, |k, r| AnyDec::<NoSimd>::supports(Kind::High, k, r)),
+        ("LowRateEncoder::supports", Kind::Low, |k, r| AnyEnc::<NoSimd>::supports(Kind::Low, k, r)),
+        ("LowRateDecoder::supports", Kind::Low, |k, r| AnyDec::<NoSimd>::supports(Kind::Low, k, r)),
+    ]
+}
+
+/// Threshold form of the README predicate: for fixed k the predicate is monotone decreasing in r,
+/// so it is `1 <= r <= max_r[k]` (max 0 = never).  Built by scanning n, cross-checked against the
+/// direct predicate below.
+fn thresholds(kind: Kind) -> Vec<usize> {
+    (0..=LIM)
+        .map(|k| {
+            if k == 0 || k > 65536 {
+                return 0;
+            }
+            let mut best = 0usize;
+            for n in 0..=16 {
+                let p = 1usize << n;
+                // high side: r <= 2^n and k <= 65536 - 2^n
+                if matches!(kind, Kind::High | Kind::Def | Kind::Rs) && k <= 65536 - p {
+                    best = best.max(p);
+                }
+                // low side: k <= 2^n and r <= 65536 - 2^n
+                if matches!(kind, Kind::Low | Kind::Def | Kind::Rs) && k <= p {
+                    best = best.max(65536 - p);
+                }
+            }
+            best
+        })
+        .collect()
+}
+
+fn corner_list() -> Vec<(usize, usize)> {
+    let mut v = Vec::new();
+    for n in 0..=16 {
+        let p = 1usize << n;
+        for (a, b) in [(p, 65536 - p), (65536 - p, p)] {
+            for da in [-1i64, 0, 1] {
+                for db in [-1i64, 0, 1] {
+                    let (x, y) = (a as i64 + da, b as i64 + db);
+                    if x >= 0 && y >= 0 {
+                        v.push((x as usize, y as usize));
+                    }
+                }
+            }
+        }
+    }
+    v.extend([(1, 1), (0, 0), (0, 1), (1, 0), (65535, 1), (1, 65535), (65534, 2), (2, 65534), (65536, 1), (1, 65536), (32768, 32768), (32769, 32768), (32768, 32769), (60000, 4000), (60000, 5000)]);
+    v.sort();
+    v.dedup();
+    v
+}
+
+/// validate/new/reset agreement for one (kind, k, r, bytes); returns number of calls compared
+pub fn check_agree(kind: Kind, k: usize, r: usize, bytes: usize) -> Result<u64, (String, String)> {
+    let acceptable = spec_validate(kind, k, r, bytes);
+    let judge = |what: &str, got: Result<(), Error>| -> Result<(), (String, String)> {
+        match (&got, acceptable.is_empty()) {
+            (Ok(()), true) => Ok(()),
+            (Err(e), false) if acceptable.contains(e) => Ok(()),
+            _ => Err((format!("{what}({k},{r},{bytes}) -> {}", if acceptable.is_empty() { "Ok".to_string() } else { format!("Err in {acceptable:?}") }), format!("{got:?}"))),
+        }
+    };
+    // never allocate for huge shard sizes: constructors are only called with small bytes here
+    let mut n = 0u64;
+    let eng = if kind == Kind::Rs { "default" } else { "nosimd" };
+    let res = guard(|| -> Result<u64, (String, String)> {
+        with_engine!(eng, E => {
+            if let Some(v) = AnyEnc::<E>::validate(kind, k, r, bytes) { judge("encoder validate", v)?; n += 1; }
+            if let Some(v) = AnyDec::<E>::validate(kind, k, r, bytes) { judge("decoder validate", v)?; n += 1; }
+            let cost = spec_work_blocks(kind, true, k.clamp(1, 65536), r.clamp(1, 65536), bytes.max(2));
+            if bytes <= 66 && k <= 65537 && r <= 65537 && cost <= 300_000 {
+                judge("encoder new", AnyEnc::<E>::new(kind, k, r, bytes, None).map(|_| ()))?;
+                judge("decoder new", AnyDec::<E>::new(kind, k, r, bytes, None).map(|_| ()))?;
+                let mut e = AnyEnc::<E>::new(kind, 2, 3, 64, None).map_err(|e| ("live encoder".to_string(), format!("{e:?}")))?;
+                judge("encoder reset", e.reset(k, r, bytes))?;
+                let mut d = AnyDec::<E>::new(kind, 2, 3, 64, None).map_err(|e| ("live decoder".to_string(), format!("{e:?}")))?;
+                judge("decoder reset", d.reset(k, r, bytes))?;
+                n += 4;
+            }
+            Ok(n)
+        })
+    });
+    match res {
+        Ok(r) => r,
+        Err(p) => Err(("no panic".into(), format!("PANIC: {p}"))),
+    }
+}
+
+fn check_works(eng: &str, codec: &str, k: usize, r: usize, seed: u64) -> Result<u64, (String, String)> {
+    let g = build_group(eng, codec, k, r, "dense:2", 0, seed).map_err(|e| ("encode Ok".to_string(), e))?;
+    let mut n = 0;
+    for (name, og, rg) in crate::c01::families(k, r).into_iter().filter(|(n, _, _)| n.starts_with("maxloss-first") || n == "every-other" || n.starts_with("maxloss-last")) {
+        let m = g.decode(&og, &rg, None).map_err(|e| (format!("decode Ok ({name})"), e))?;
+        g.check_restored(&og, &m).map_err(|e| (format!("restored == missing originals ({name})"), e))?;
+        n += 1;
+    }
+    Ok(n)
+}
+
+fn run_case(kv: &Kv) -> Result<u64, (String, String)> {
+    match kv.str("what") {
+        "supports" => {
+            let (k, r) = (kv.usize("k"), kv.usize("r"));
+            let idx = kv.usize("entry");
+            let (name, kind, f) = entry_points()[idx];
+            let want = spec_supports(kind, k, r);
+            let got = guard(|| f(k, r)).map_err(|p| ("no panic".to_string(), format!("PANIC: {p}")))?;
+            if want == got {
+                Ok(1)
+            } else {
+                Err((format!("{name}({k},{r}) == {want} (README envelope)"), format!("{got}")))
+            }
+        }
+        "agree" => check_agree(Kind::parse(kv.str("kind")), kv.usize("k"), kv.usize("r"), kv.usize("bytes")),
+        "works" => check_works(kv.str("eng"), kv.str("codec"), kv.usize("k"), kv.usize("r"), kv.u64("seed")),
+        w => panic!("what {w}"),
+    }
+}
+
+pub fn replay(_ctx: &Ctx, case: &str) -> Result<(), String> {
+    let kv = Kv::parse(case)?;
+    run_case(&kv).map(|_| ()).map_err(|(e, o)| format!("expected {e}; observed {o}"))
+}
+
+pub fn run(ctx: &Ctx, rep: &mut Report) {
+    rep.rule = "whole square (k,r) in 0..=65537^2 for each of the 8 supports() entry points against the README predicate, plus extreme values up to usize::MAX; validate/new/reset agreement at all 17 staircase corners with their 8 neighbours x 7 shard sizes x 4 codec kinds; real round trips at every supported corner; non-trivial = pair within distance 1 of the envelope boundary (where an off-by-one would show) or an agreement/round-trip case; distinct by (entry point,k,r[,bytes])".into();
+    rep.assume("README predicate transcribed as: k>=1, r>=1 and exists n in 0..=16 with one count <= 2^n and the other <= 65536-2^n (high: r is the 2^n side, low: k)");
+
+    // ---- spec self check: threshold form == direct predicate on corners and a grid
+    for kind in [Kind::High, Kind::Low, Kind::Def] {
+        let th = thresholds(kind);
+        for &(k, r) in corner_list().iter() {
+            if k <= LIM {
+                let t = r >= 1 && r <= th[k];
+                if t != spec_supports(kind, k, r) {
+                    rep.machinery_errors.push(format!("spec threshold form disagrees with predicate at {kind:?} ({k},{r})"));
+                }
+            }
+        }
+        for k in (0..=LIM).step_by(97) {
+            for r in (0..=LIM).step_by(89) {
+                let t = r >= 1 && r <= th[k];
+                if t != spec_supports(kind, k, r) {
+                    rep.machinery_errors.push(format!("spec threshold form disagrees with predicate at {kind:?} ({k},{r})"));
+                }
+            }
+        }
+    }
+
+    // ---- whole square
+    let eps = entry_points();
+    let ths: Vec<Vec<usize>> = eps.iter().map(|(_, kind, _)| thresholds(*kind)).collect();
+    let rows: Vec<(u64, u64, Vec<(usize, usize, usize)>)> = par_for(LIM + 1, 64, |k| {
+        let mut evals = 0u64;
+        let mut near = 0u64;
+        let mut bad = Vec::new();
+        for (ei, (_, _, f)) in eps.iter().enumerate() {
+            let th = ths[ei][k];
+            for r in 0..=LIM {
+                let want = r >= 1 && r <= th;
+                let got = f(k, r);
+                evals += 1;
+                if want != got && bad.len() < 4 {
+                    bad.push((ei, k, r));
+                }
+            }
+            near += if th > 0 { 3 } else { 0 };
+        }
+        (evals, near, bad)
+    });
+    for (evals, near, bad) in rows {
+        rep.evaluations += evals;
+        rep.distinct += near;
+        for (ei, k, r) in bad {
+            let kv = Kv::new().with("what", "supports").with("entry", ei).with("k", k).with("r", r);
+            let want = spec_supports(eps[ei].1, k, r);
+            rep.violation(Violation { key: format!("supports-{}-{}-{}", eps[ei].0.replace("::", "."), k, r), case: kv.dump(), expected: format!("{}({k},{r}) == {want} (README envelope)", eps[ei].0), observed: format!("{}", !want) });
+        }
+    }
+    rep.states = ((LIM + 1) * (LIM + 1)) as u64;
+    rep.transitions = rep.evaluations;
+    rep.bound("square", J::s("0..=65537 x 0..=65537, 8 entry points, complete"));
+
+    // ---- extremes
+    let ext: Vec<usize> = vec![0, 1, 2, 65535, 65536, 65537, 1 << 31, 1 << 32, 1 << 63, usize::MAX - 1, usize::MAX];
+    let mut cases: Vec<Kv> = Vec::new();
+    for (ei, _) in eps.iter().enumerate() {
+        for &k in &ext {
+            for &r in &ext {
+                cases.push(Kv::new().with("what", "supports").with("entry", ei).with("k", fmt_usize(k)).with("r", fmt_usize(r)));
+            }
+        }
+    }
+    rep.bound("extremes", J::s(format!("{:?} squared", ext.iter().map(|x| fmt_usize(*x)).collect::<Vec<_>>())));
+
+    // ---- agreement
+    let sizes = [0usize, 1, 2, 3, 64, 65, 66];
+    for kind in [Kind::Rs, Kind::Def, Kind::High, Kind::Low] {
+        for &(k, r) in &corner_list() {
+            for &b in &sizes {
+                cases.push(Kv::new().with("what", "agree").with("kind", kind.name()).with("k", k).with("r", r).with("bytes", b));
+            }
+        }
+        for &k in &[0usize, 1, 65536, usize::MAX] {
+            for &r in &[0usize, 1, 65537, usize::MAX] {
+                for &b in &[0usize, 1, 2, usize::MAX, usize::MAX - 1] {
+                    cases.push(Kv::new().with("what", "agree").with("kind", kind.name()).with("k", fmt_usize(k)).with("r", fmt_usize(r)).with("bytes", fmt_usize(b)));
+                }
+            }
+        }
+    }
+    rep.bound("agreement", J::s(format!("{} corner/neighbour configurations x shard sizes {sizes:?} x {{rs,def,high,low}}; extreme counts and sizes through validate only", corner_list().len())));
+
+    // ---- really works
+    let ns: Vec<u32> = if ctx.thorough() { (0..=15).collect() } else { vec![0, 1, 8, 12, 15] };
+    let mut works: Vec<(usize, usize)> = vec![(65535, 1), (1, 65535), (32768, 32768)];
+    if ctx.thorough() {
+        works.push((65534, 2));
+        works.push((2, 65534));
+    }
+    for &n in &ns {
+        let p = 1usize << n;
+        works.push((p, 65536 - p));
+        works.push((65536 - p, p));
+    }
+    works.sort();
+    works.dedup();
+    let eng = if engines_fast().contains(&"avx2") { "avx2" } else { "nosimd" };
+    for &(k, r) in &works {
+        for codec in ["def", "high", "low"] {
+            if spec_supports(Kind::parse(codec), k, r) {
+                cases.push(Kv::new().with("what", "works").with("eng", eng).with("codec", codec).with("k", k).with("r", r).with("seed", ctx.seed));
+            }
+        }
+        if spec_supports(Kind::Rs, k, r) && (ctx.thorough() || k + r == 65536 && k.is_power_of_two()) {
+            cases.push(Kv::new().with("what", "works").with("eng", "default").with("codec", "rs").with("k", k).with("r", r).with("seed", ctx.seed));
+        }
+    }
+    rep.bound("really_works", J::s(format!("{works:?} x supported codecs, 2-byte shards, patterns maxloss-first/maxloss-last/every-other")));
+
+    cases.sort_by_key(|kv| if kv.str("what") == "works" { 0 } else { 1 });
+    let results: Vec<Result<u64, (String, String)>> = par_for(cases.len(), 1, |i| match guard(|| run_case(&cases[i])) {
+        Ok(r) => r,
+        Err(p) => Err(("no panic".into(), format!("PANIC: {p}"))),
+    });
+    let mut n_agree = 0u64;
+    let mut n_works = 0u64;
+    for (kv, res) in cases.iter().zip(results) {
+        rep.states += 1;
+        match res {
+            Ok(n) => {
+                rep.evaluations += n;
+                rep.transitions += n;
+                match kv.str("what") {
+                    "agree" => {
+                        n_agree += n;
+                        rep.distinct += 1;
+                    }
+                    "works" => {
+                        n_works += n;
+                        rep.traces += n;
+                        rep.distinct += 1;
+                    }
+                    _ => {}
+                }
+            }
+            Err((exp, obs)) => rep.violation(Violation {
+                key: format!("{}-{}-{}-{}-{}", kv.str("what"), kv.opt("kind").or(kv.opt("codec")).or(kv.opt("entry")).unwrap_or(""), kv.str("k"), kv.str("r"), kv.opt("bytes").unwrap_or("")),
+                case: kv.dump(),
+                expected: exp,
+                observed: obs,
+            }),
+        }
+    }
+    rep.extra("agreement_calls_compared", J::i(n_agree));
+    rep.extra("corner_round_trips", J::i(n_works));
+    rep.sample("what=supports entry=0..7 k=0..65537 r=0..65537 (whole square)");
+    for i in [0, cases.len() / 2, cases.len() - 1] {
+        rep.sample(cases[i].dump());
+    }
+}
